@@ -560,6 +560,10 @@ func (a *cbpAnchors) impls() []*batchImpl {
 
 func isFieldLoad(v ssa.Value, f *types.Var) bool {
 	fa := core.LoadedField(core.Strip(v))
+	if fa == nil {
+		// a local alias of the field (`sem := b.processor.sem`), also when a closure captures it (a cell with one store)
+		fa = core.LoadedField(core.Strip(core.Canon(v)))
+	}
 	return fa != nil && core.FieldVar(fa) == f
 }
 
